@@ -949,8 +949,22 @@ func runC22(p *Profile, seed uint64, rf *ReplayFile) *RunOutcome {
 			os.Exit(2)
 		}
 		applyStoreEvents(h, srv, evs)
-		views[b] = storedView(h)
+		live := storedView(h)
+		// read back once more through a freshly opened store on the same files (what a restarted broker sees):
+		// engines with write buffers can answer differently before and after a flush
 		_ = h.Stop()
+		h2, err := openBackend(b, dir)
+		if err != nil {
+			fmt.Println("TOOLING cannot reopen backend", b, err)
+			os.Exit(2)
+		}
+		views[b] = storedView(h2)
+		_ = h2.Stop()
+		for _, kd := range []string{"clients", "subscriptions", "retained", "inflight", "sysinfo"} {
+			if a, c := strings.Join(live[kd], " ; "), strings.Join(views[b][kd], " ; "); a != c {
+				o.Violations = append(o.Violations, viol("C22", "changes-on-reopen", fmt.Sprintf("%s after %d events: %s returns [%s] before the store is closed and [%s] after it is reopened", kd, len(evs), b, a, c), -1, "what", kd, "backend", b))
+			}
+		}
 		os.RemoveAll(dir)
 		o.Stats.Steps += len(evs)
 	}
